@@ -1,7 +1,12 @@
 package checks
 
 import (
+	"context"
 	"fmt"
+	"net"
+	"sync/atomic"
+
+	tq "github.com/facebookincubator/tacquito"
 	"sort"
 	"strings"
 	"sync"
@@ -272,6 +277,69 @@ func runC20(b *mon.B) {
 			}
 		}
 		base = after // judge the next burst on its own
+	}
+	c20Stampede(b, r, &caseNo, base)
+}
+
+// gateProvider refuses every connection, but only once the gate opens: all
+// connection goroutines of a burst are released at the same instant, so their
+// final bookkeeping (close, gauge updates, wait-group Done) runs concurrently.
+type gateProvider struct {
+	gate    chan struct{}
+	waiting int32
+}
+
+func (g *gateProvider) Get(ctx context.Context, remote net.Addr) ([]byte, tq.Handler, error) {
+	atomic.AddInt32(&g.waiting, 1)
+	<-g.gate
+	return nil, nil, fmt.Errorf("refused")
+}
+
+// c20Stampede: many small bursts whose connections all finish at the same instant.
+func c20Stampede(b *mon.B, r *gen.R, caseNo *int, base map[string]float64) {
+	n := b.N(1500, 60000)
+	for k := 0; k < n; k++ {
+		*caseNo++
+		if !b.Want(*caseNo) {
+			continue
+		}
+		nc := 2 + k%5
+		world := simnet.New()
+		world.SetKeepLog(false)
+		world.Watchdog = 20 * time.Second
+		gp := &gateProvider{gate: make(chan struct{})}
+		srv := kit.Start(world, tap.New(world), tap.NewLogger(false), gp)
+		conns := make([]*simnet.Conn, nc)
+		for i := range conns {
+			conns[i] = srv.L.Dial(simnet.RemoteFor(i + 1))
+		}
+		if !waitUntil(10*time.Second, func() bool { return atomic.LoadInt32(&gp.waiting) == int32(nc) }) {
+			b.Inconclusive("stampede: connections did not reach admission")
+			close(gp.gate)
+			srv.Stop()
+			continue
+		}
+		close(gp.gate)
+		for _, c := range conns {
+			c.WaitClosed()
+		}
+		if err := srv.Stop(); err != nil {
+			b.Inconclusive("stampede: Serve did not return")
+			continue
+		}
+		b.Eval(1)
+		after := readGauges()
+		if k == 0 {
+			b.Class("stampede:simultaneous-finish")
+		}
+		b.Count("stampede_bursts", 1)
+		for _, g := range c20Gauges {
+			if after[g] != base[g] {
+				b.Violate(*caseNo, "C20/stampede-drift/"+g, fmt.Sprintf("gauge %s is %v after %d connections finished at the same instant and Serve returned; it was %v before", g, after[g], nc, base[g]),
+					map[string]interface{}{"connections": nc, "before": base, "after": after})
+				base[g] = after[g]
+			}
+		}
 	}
 }
 
